@@ -25,3 +25,8 @@ Definition fresh_gen : inst_gen := fresh slim slim (fun m => m) (fun m => m).
 Definition step_gen (st : inst_gen) (o : op) : inst_gen * option outcome :=
   step compat_gen cur_gen slim slim (fun m => m) (fun m => m) empty_slim
        (fun m => m) (fun _ _ _ => empty_slim) st o.
+
+(* a message the Go types can hold and Marshal can frame: field ranges, no
+   unknown fields, every length-delimited payload below 2^64 (wf_slim), and a
+   body below 2^63 bytes (pbcmpl reads BodySize as int64) *)
+Definition wf_msg (m : slim) : bool := wf_slim m && (blen (ser_slim m) <? two63)%N.
